@@ -199,10 +199,16 @@ func (c *Change) HasDots() bool {
 // ---------------------------------------------------------------------------------------------
 // instances
 
+// RelayoutComment is the comment Fill.Relayout appends to a repeated filler that has no blank to double.
+const RelayoutComment = " /* same */"
+
 // Fill describes how an instance was made.
 type Fill struct {
 	Meta map[string]string
 	Runs map[string]string
+	// Relayout renders the second and later occurrences of an expression metavariable's filler with
+	// another layout (doubled blanks, or a trailing comment): the same syntax, another source extent.
+	Relayout bool
 }
 
 // delimited reports whether every occurrence of «name» in tmpl sits between list/bracket
@@ -275,6 +281,7 @@ func (c *Change) Instance(g *G) (string, *Fill) {
 	for _, sm := range dotsRe.FindAllStringSubmatch(minus, -1) {
 		f.Runs[sm[1]] = g.Run(sm[2], g.R.Intn(4))
 	}
+	f.Relayout = g.R.Intn(3) == 0
 	return c.Substitute(minus, f), f
 }
 
@@ -345,9 +352,18 @@ func (c *Change) Substitute(tmpl string, f *Fill) string {
 		out = append(out, ln)
 	}
 	s := strings.Join(out, "\n")
+	seen := map[string]int{}
+	kinds := c.MetaMap()
 	return metaRe.ReplaceAllStringFunc(s, func(m string) string {
 		name := metaRe.FindStringSubmatch(m)[1]
 		if v, ok := f.Meta[name]; ok {
+			seen[name]++
+			if f.Relayout && seen[name] > 1 && kinds[name] == "expression" && !strings.Contains(v, "\n") && !strings.Contains(v, "`") && !strings.Contains(v, "\"") {
+				if strings.Contains(v, " ") {
+					return strings.ReplaceAll(v, " ", "  ")
+				}
+				return v + RelayoutComment
+			}
 			return v
 		}
 		return name
